@@ -106,9 +106,14 @@ def check_case(acc, kind, arch, params, tag=None, st=None, history=None):
     except LibRaised as e:
         bad(f"born:raised:{e.kind}", e.tb, None)
     mod2 = np.abs(psi) ** 2
-    if not close(mod2 / np.exp(la), np.ones_like(la), TOL):
+    # torch's softplus switches to the identity above its threshold of 20, which drops log1p(exp(-x)) <= 2.1e-9
+    # per saturated hidden unit from the log-probability: a floating-point approximation of the library, not
+    # a property violation.  The ratio oracles get exactly that much slack and no more (0 for unsaturated cases).
+    X = np.array(list(itertools.product([0.0, 1.0], repeat=n))) @ lam[0].T + lam[2]
+    slack = float(np.where(X > 20, np.log1p(np.exp(-np.maximum(X, 20))), 0.0).sum(axis=1).max())
+    if not close(mod2 / np.exp(la), np.ones_like(la), TOL + 1.01 * slack):
         bad("born:psi-modulus-vs-probability", mod2, np.exp(la))
-    if not close(amp / np.exp(la / 2), np.ones_like(la), TOL):
+    if not close(amp / np.exp(la / 2), np.ones_like(la), TOL + 1.01 * slack):
         bad("born:amplitude", amp, np.exp(la / 2))
     if kind == "complex":
         mu = split_binary(params[1], arch)
